@@ -468,6 +468,10 @@ vfps::HDF5File::readPhaseSpace( std::string fname
 
     std::vector<hsize_t> ps_offset;
     std::vector<hsize_t> ps_ext;
+    // only [step][x][y] and [step][bunch][x][y] with at least one step are usable
+    if ((rank != 3 && rank != 4) || ps_dims[0] == 0) {
+        throw HDF5FileException("Unexpected shape of /PhaseSpace/data.");
+    }
     use_step = (ps_dims[0]+use_step)%ps_dims[0];
     meshindex_t ps_size;
     uint32_t nBunches = 1U;
